@@ -973,6 +973,9 @@ func (ip *Interp) block(e *Expr, start, cur int, text string, env map[string]any
 	}
 	if blk.Err != "" {
 		serr = &rtapi.ScriptErr{Seq: ip.errSeq, Msg: blk.Err}
+		if blk.ErrText {
+			serr.Msg = blk.Err + ":" + text
+		}
 	}
 	var val any
 	var ok bool
